@@ -31,8 +31,8 @@ fn cond_le_u8(c: bool, input: &[u8]) -> (r: SudachiNomResult<&[u8], Option<u8>>)
 fn decode_utf16_le(data: &[u8]) -> (r: Result<String, ()>)
     ensures utf16_text(data@) is Some ==> r is Ok && r->Ok_0@ == utf16_text(data@)->Some_0, utf16_text(data@) is None ==> r is Err
 { unimplemented!() }
-/// trusted: decoding no code units gives the empty text
-proof fn axiom_utf16_empty() ensures utf16_text(Seq::<u8>::empty()) == Some(Seq::<char>::empty()) { admit(); }
+
+
 #[verifier::external_body] fn string_new() -> (r: String) ensures r@.len() == 0 { String::new() }
 #[verifier::external_body] fn empty_bytes<'a>() -> (r: &'a [u8]) ensures r@.len() == 0 { &[] }
 #[verifier::external_body] fn slice_split_at<'a>(s: &'a [u8], mid: usize) -> (r: (&'a [u8], &'a [u8]))
@@ -174,7 +174,7 @@ proof fn axiom_utf16_empty() ensures utf16_text(Seq::<u8>::empty()) == Some(Seq:
 //@  ret r
 //@  atstart
     proof {
-        axiom_utf16_empty();
+        lemma_utf16_empty();
         let d = input@;
         if dec_len(d) is Some {
             let rl = dec_len(d)->Some_0.0;
